@@ -1505,6 +1505,39 @@ fn section_c1(run: &Run, seed: u64, nl: usize, budget_s: f64) {
 			l.case(&[5, hp.len() as u64, (size - p).min(20)]);
 			p += NTHREADS as u64;
 		}
+		// one view re-positioned again and again, in both directions (the view is a size over a shared
+		// append-only backend: a later, larger position within the backend is as good as a smaller one),
+		// and a view created empty and positioned by rewind()
+		let mut pr = Prng::new(seed ^ 0xC1A1 ^ ((ti as u64) << 20));
+		let mut walk = RewindablePMMR::at(be, total);
+		let mut prev = total;
+		for step in 0..64u64 {
+			if dl.over() || total == 0 {
+				break;
+			}
+			let p = match step % 4 {
+				0 => pr.below(total + 1),
+				1 => prev + pr.below(total - prev + 1),
+				2 => pr.below(prev + 1),
+				_ => total - pr.below(total.min(4) + 1).min(total),
+			};
+			let (n, size) = r.valid_size_at_or_after(p).unwrap();
+			let from = prev;
+			let rp = move || json!({"section": "C1", "seed": seed, "view": "RewindablePMMR (one view, repositioned)", "previous_position": from, "rewind_to": p});
+			let hp = r.peak_hashes(r.hist_peaks(n));
+			check(run, l, "RewindablePMMR::rewind", "rewind_view_walk", &rp, Ok(()), || walk.rewind(p));
+			let ro = walk.as_readonly();
+			cmp_view(run, l, &ro, RW_N, "rewind_view_walk", &rp, size, r.root_of_leaves(n), &hp);
+			l.case(&[6, (p > from) as u64, (p == from) as u64, hp.len() as u64]);
+			prev = size;
+			if step % 16 == 7 {
+				let mut fresh = RewindablePMMR::new(be);
+				let rp = move || json!({"section": "C1", "seed": seed, "view": "RewindablePMMR::new then rewind", "rewind_to": p});
+				check(run, l, "RewindablePMMR::rewind", "rewind_view_from_empty", &rp, Ok(()), || fresh.rewind(p));
+				let ro = fresh.as_readonly();
+				cmp_view(run, l, &ro, RW_N, "rewind_view_from_empty", &rp, size, r.root_of_leaves(n), &hp);
+			}
+		}
 	});
 	if dl.was_hit() {
 		inconc(run, "section C1: time budget hit in prefix views");
